@@ -14,63 +14,70 @@ import (
 // Target is asked for every call instruction the value reaches as argument i.
 type Target func(call ssa.CallInstruction, argIndex int) bool
 
-// Reaches reports whether v flows into a call accepted by target.
-func Reaches(v ssa.Value, target Target) bool {
-	return walk(v, target, map[ssa.Value]bool{}, 0)
+type walker struct {
+	target    Target
+	seen      map[ssa.Value]bool
+	reached   bool
+	truncated bool
 }
 
-func walk(v ssa.Value, target Target, seen map[ssa.Value]bool, depth int) bool {
-	if v == nil || seen[v] || depth > 30 {
-		return false
+// Reaches reports whether v flows into a call accepted by target, and not also
+// through a re-slicing (s[lo:hi]) of a carrier that itself reaches the target:
+// such a truncation may drop the value on some path, so the flow is not
+// accepted as certain (fails closed).
+func Reaches(v ssa.Value, target Target) bool {
+	w := &walker{target: target, seen: map[ssa.Value]bool{}}
+	w.walk(v, 0, false)
+	return w.reached && !w.truncated
+}
+
+// walk explores every use of v (no early exit); cut = a truncating slice lies
+// between the source and v.
+func (w *walker) walk(v ssa.Value, depth int, cut bool) {
+	if v == nil || depth > 40 {
+		return
 	}
-	seen[v] = true
+	if w.seen[v] {
+		return
+	}
+	w.seen[v] = true
 	refs := v.Referrers()
 	if refs == nil {
-		return false
+		return
 	}
 	for _, ref := range *refs {
 		switch x := ref.(type) {
 		case *ssa.Store:
 			if x.Val == v {
-				// stored into an element/field of an object: the object carries it
-				if walk(rootOf(x.Addr), target, seen, depth+1) {
-					return true
-				}
+				w.walk(rootOf(x.Addr), depth+1, cut)
 			}
 		case *ssa.Slice:
-			// only the full slice of a literal array keeps every element
-			if x.Low == nil && x.High == nil && walk(x, target, seen, depth+1) {
-				return true
+			if x.X != v {
+				continue
+			}
+			if x.Low == nil && x.High == nil {
+				w.walk(x, depth+1, cut)
+			} else {
+				sub := &walker{target: w.target, seen: map[ssa.Value]bool{}}
+				sub.walk(x, depth+1, false)
+				if sub.reached {
+					w.truncated = true
+				}
 			}
 		case *ssa.Phi:
-			if walk(x, target, seen, depth+1) {
-				return true
-			}
+			w.walk(x, depth+1, cut)
 		case *ssa.MakeInterface:
-			if walk(x, target, seen, depth+1) {
-				return true
-			}
+			w.walk(x, depth+1, cut)
 		case *ssa.ChangeType:
-			if walk(x, target, seen, depth+1) {
-				return true
-			}
+			w.walk(x, depth+1, cut)
 		case *ssa.Convert:
-			if walk(x, target, seen, depth+1) {
-				return true
-			}
+			w.walk(x, depth+1, cut)
 		case *ssa.UnOp:
-			if walk(x, target, seen, depth+1) {
-				return true
-			}
+			w.walk(x, depth+1, cut)
 		case *ssa.Extract:
-			if walk(x, target, seen, depth+1) {
-				return true
-			}
+			w.walk(x, depth+1, cut)
 		case *ssa.MakeClosure:
-			// captured: the closure carries it
-			if walk(x, target, seen, depth+1) {
-				return true
-			}
+			w.walk(x, depth+1, cut)
 		case ssa.CallInstruction:
 			cc := x.Common()
 			var args []ssa.Value
@@ -82,8 +89,8 @@ func walk(v ssa.Value, target Target, seen map[ssa.Value]bool, depth int) bool {
 				if a != v {
 					continue
 				}
-				if target(x, i) {
-					return true
+				if w.target(x, i) {
+					w.reached = true
 				}
 				cv, isVal := x.(*ssa.Call)
 				if !isVal {
@@ -92,35 +99,32 @@ func walk(v ssa.Value, target Target, seen map[ssa.Value]bool, depth int) bool {
 				name := prov.CalleeName(cc)
 				switch {
 				case name == "builtin:append":
-					if walk(cv, target, seen, depth+1) {
-						return true
-					}
+					w.walk(cv, depth+1, cut)
 				case name == "cbor.GenerateMapEntry":
 					// the entry is built by running the closure
-					if walk(cv, target, seen, depth+1) {
-						return true
-					}
+					w.walk(cv, depth+1, cut)
 				default:
 					// pass-through wrapper: a module function returning (something derived from) its parameter i
 					if sc := cc.StaticCallee(); sc != nil && sc.Blocks != nil && i < len(sc.Params) {
 						pn := "param:" + sc.Params[i].Name()
+						through := false
 						for _, b := range sc.Blocks {
 							if r, ok := b.Instrs[len(b.Instrs)-1].(*ssa.Return); ok {
 								for _, rv := range r.Results {
 									if strings.Contains(prov.Of(rv), pn) {
-										if walk(cv, target, seen, depth+1) {
-											return true
-										}
+										through = true
 									}
 								}
 							}
+						}
+						if through {
+							w.walk(cv, depth+1, cut)
 						}
 					}
 				}
 			}
 		}
 	}
-	return false
 }
 
 func rootOf(v ssa.Value) ssa.Value {
